@@ -219,3 +219,33 @@ def c14_tie(case, impl):
         if (callee, tuple(kinds)) not in rows:
             return f"call shape not in the pinned table: {callee}({', '.join(kinds)}) | {line.strip()[:80]}"
     return None
+
+
+# --------------------------------------------------------------------------- C15
+
+def c15(case, impl):
+    if impl.startswith("internal "):
+        return f"conversion failed with an internal exception: {impl[9:]}"
+    if impl.startswith("timeout"):
+        return "conversion did not terminate within the time limit"
+    return None
+
+
+def c15_classify(case, impl, why):
+    """the class is the raise site, found by re-running the real code and looking at the exception"""
+    import impl_b09
+    from coco.b09 import compiler
+    try:
+        compiler.convert(case["text"], **impl_b09.opts_to_kwargs(case["opts"]))
+    except RecursionError:
+        return "deep-nesting-recursion"
+    except Exception as e:  # noqa: BLE001
+        msg = str(e)
+        if "could not convert string to float" in msg:
+            return "literal-float-valueerror"
+        if "'HexLiteral' object has no setter" in msg:
+            return "hex-data-with-empty-item"
+        if "'Node' object has no attribute 'visit'" in msg:
+            return "leaked-parse-node"
+        return None
+    return None
